@@ -10,9 +10,12 @@ SERVES = {
     "lemma_put_frame": ("C02", "C03", "C04", "C17", "C12"), "lemma_put_scatter": ("C04",), "lemma_read_after_write": ("C02", "C04"),
     "lemma_history": ("C12",), "lemma_commute": ("C12",), "lemma_overwrite": ("C12",), "lemma_alias": ("C12",), "lemma_frame": ("C12", "C17"),
     "lemma_inv_history": ("C11",), "lemma_builder_chain": ("C13",), "lemma_lww_uncovered": ("C13",), "lemma_union_disjoint": ("C04",),
+    "lemma_getter_join": ("C01", "C04"), "lemma_setter_combine": ("C02", "C04"),
+    "lemma_mask_join_covered": (), "lemma_scatter_join_disjoint": (), "lemma_scatter_none_below": (), "lemma_covered_wit": (),
     "lemma_total_mono": (), "lemma_get_high": (), "lemma_orbit": (), "lemma_zero": (), "lemma_setbit": (),
 }
-SUPPORT = ("lemma_total_mono", "lemma_get_high", "lemma_orbit", "lemma_zero", "lemma_setbit")
+SUPPORT = ("lemma_total_mono", "lemma_get_high", "lemma_orbit", "lemma_zero", "lemma_setbit",
+           "lemma_mask_join_covered", "lemma_scatter_join_disjoint", "lemma_scatter_none_below", "lemma_covered_wit")
 
 
 def assemble():
